@@ -454,6 +454,46 @@ def c13(tier):
     ck.assumptions += REF_ASSUME
     return ck.finish(floor_events=1000)
 
+from . import lexer_check as lxc
+
+@register('C04')
+def c04(tier):
+    ck = Check('C04', tier)
+    q = tier == 'quick'
+    rnd = random.Random(common.seed() * 4441 + 4)
+    modes = [0, 7, 8, 9, 3, 4]
+    specs = []
+    fixed = lxc.fixed_termsets()
+    for i, c in enumerate(chunks(fixed, 6)):
+        specs.append({'seed': 20261003 + i, 'termsets': [[t.to_json() for t in ts] for ts in c], 'modes': modes, 'n_inputs': 120 if q else 400, 'corpus': True})
+    n = 96 if q else 2000
+    sets = [lxc.gen_termset(rnd) for _ in range(n)]
+    for i, c in enumerate(chunks(sets, 6)):
+        specs.append({'seed': common.seed() * 7 + i, 'termsets': [[t.to_json() for t in ts] for ts in c], 'modes': modes, 'n_inputs': 80 if q else 300})
+    merge(ck, common.pmap(lxc.worker, specs))
+    ck.cov['rule'] = ('term sets (chars, strings, regexes, typed terms; keywords vs identifiers, ints vs floats, operators sharing prefixes, terms equal as languages; a fixed corpus of realistic sets plus seeded '
+                      'random ones) under the grammar L -> eps | L t_i; (1) the merged lexer automaton is read through the hook and compared as a tagged language (which term wins after every string) with the '
+                      'reference union automaton with first-listed priority; (2) inputs made of sampled lexemes, whitespace and foreign bytes are parsed under all four whitespace option sets and three '
+                      'buffer kinds, and the token events (term, offset, length, line, column), result and message are compared with reference maximal munch; sets whose union needs determinisation '
+                      'are keyed to the recorded finding unless they belong to the fixed corpus; distinct_nontrivial = distinct (term set,input,options) with >= 2 tokens')
+    ck.assumptions += ['reference regex/tagged-automaton model lib/vf/ref_regex.py', 'terms never match the empty string (generator filter)']
+    return ck.finish(floor_events=1000)
+
+from . import helpers_check as hpc
+
+@register('C19')
+def c19(tier):
+    ck = Check('C19', tier)
+    out, n = hpc.run('asan0' if tier == 'quick' else 'asan')
+    merge(ck, [out])
+    ck.cov['exhaustive'] = (ck.cov.get('evaluations', 0) == n)
+    ck.cov['cases_in_space'] = n
+    ck.cov['rule'] = ('complete enumeration, executed under ASan+UBSan: _e1.._e9 and construct<T,I> for every arity 1..9 and position with lvalue, rvalue and move-only arguments; push_back<C,A> and '
+                      'emplace_back<C,A> for every arity <= 9 and every position pair C != A (rvalue; move-only for emplace_back); val and create<T> for every arity; every argument is a tracked object, '
+                      'so identity of the returned reference, the id the result was built from, copies/moves of every argument and of the container are observed; every case is distinct and non-trivial')
+    ck.assumptions += ['reads of an argument that leave no trace (no copy, move or mutation) are not observable']
+    return ck.finish(floor_events=n)
+
 def replay(prop, path):
     rep = json.load(open(path))
     print('replay of', path, '- re-running the full check for', prop, 'with seed', rep.get('seed'))
